@@ -1,0 +1,69 @@
+// Verification contracts (comment-only, compiled only with the "verif" build tag; read by /verif/govc).
+
+//go:build verif
+// +build verif
+
+package state
+
+// Property C14, clause 2: the hand-written DecodeRLP methods copy every field of the decoded carrier struct into the
+// receiver (one labelled obligation per field, so that a field added to the type without a copy, or a dropped copy, fails).
+// The reflective decoding of the carrier itself ((*rlp.Stream).Decode) is not under contract: its effect is a havoc of the
+// whole heap, i.e. the carrier holds arbitrary decoded values.
+
+//@ func (*Validator).DecodeRLP props C14
+//@ requires v != nil
+//@ modifies all, c14Consumed, c14K, c14Sz, c14P
+//@ assert before return#1: [Name] v.Name == r.Name
+//@ assert before return#1: [OperatorAddress] v.OperatorAddress == r.OperatorAddress
+//@ assert before return#1: [Coinbase] v.Coinbase == r.Coinbase
+//@ assert before return#1: [Role] v.Role == r.Role
+//@ assert before return#1: [Status] v.Status == r.Status
+//@ assert before return#1: [ExpelExpired] v.ExpelExpired == r.ExpelExpired
+//@ assert before return#1: [LastInactive] v.LastInactive == r.LastInactive
+//@ assert before return#1: [MainPubKey] v.MainPubKey == r.MainPubKey
+//@ assert before return#1: [BlsPubKey] v.BlsPubKey == r.BlsPubKey
+//@ assert before return#1: [Token] v.Token == r.Token
+//@ assert before return#1: [Stake] v.Stake == r.Stake
+//@ assert before return#1: [SelfToken] v.SelfToken == r.SelfToken
+//@ assert before return#1: [SelfStake] v.SelfStake == r.SelfStake
+//@ assert before return#1: [RewardsDistributable] v.RewardsDistributable == r.RewardsDistributable
+//@ assert before return#1: [RewardsTotal] v.RewardsTotal == r.RewardsTotal
+//@ assert before return#1: [RewardsLastSettled] v.RewardsLastSettled == r.RewardsLastSettled
+//@ assert before return#1: [AcceptDelegation] v.AcceptDelegation == r.AcceptDelegation
+//@ assert before return#1: [CommissionRate] v.CommissionRate == r.CommissionRate
+//@ assert before return#1: [RiskObligation] v.RiskObligation == r.RiskObligation
+//@ assert before return#1: [Delegations] v.Delegations == r.Delegations
+//@ assert before return#1: [Ext] v.Ext == r.Ext
+//@ assert before return#1: [Expelled-set] r.Expelled == 1 ==> v.Expelled
+//@ assert before return#1: [Expelled] v.Expelled == (r.Expelled == 1)
+
+//@ func (*ValKindStat).DecodeRLP props C14
+//@ requires v != nil
+//@ modifies all, c14Consumed, c14K, c14Sz, c14P
+//@ assert before return#1: [onlineStake] v.onlineStake == data.Stake
+//@ assert before return#1: [onlineToken] v.onlineToken == data.Token
+//@ assert before return#1: [onlineCount] v.onlineCount == data.Count
+//@ assert before return#1: [offlineStake] v.offlineStake == data.OfflineStake
+//@ assert before return#1: [offlineToken] v.offlineToken == data.OfflineToken
+//@ assert before return#1: [offlineCount] v.offlineCount == data.OfflineCount
+//@ assert before return#1: [rewardsResidue] v.rewardsResidue == data.RewardsResidue
+//@ assert before return#1: [rewardsDistributable] v.rewardsDistributable == data.Rewards
+
+// The receiver comes from NewValidatorsStat (both maps allocated) at every decode site. No `panics none`: the havoc that stands
+// for the reflective Decode also havocs m.Kinds / m.Roles (the engine cannot express "Decode writes only below val"), so the
+// nil-map obligations of the six assignments are not provable.
+//@ func (*ValidatorsStat).DecodeRLP props C14
+//@ requires m != nil && m.Kinds != nil && m.Roles != nil && s != nil
+//@ modifies all, c14Consumed, c14K, c14Sz, c14P
+//@ assert before return#1: [KindValidator] m.Kinds[params.KindValidator] == data.KindValidator
+//@ assert before return#1: [KindChamber] m.Kinds[params.KindChamber] == data.KindChamber
+//@ assert before return#1: [KindHouse] m.Kinds[params.KindHouse] == data.KindHouse
+//@ assert before return#1: [RoleChancellor] m.Roles[params.RoleChancellor] == data.RoleChancellor
+//@ assert before return#1: [RoleSenator] m.Roles[params.RoleSenator] == data.RoleSenator
+//@ assert before return#1: [RoleHouse] m.Roles[params.RoleHouse] == data.RoleHouse
+
+//@ func (*Validators).DecodeRLP props C14
+//@ panics none
+//@ requires s != nil && stream != nil
+//@ modifies all, c14Consumed, c14K, c14Sz, c14P
+//@ assert before return#1: [validators] s.validators == msg.ValSet
